@@ -18,7 +18,7 @@ def one(job):
     lines = [l for l in r.stdout.splitlines() if l.startswith(("VIOLATION", "CHECKER-FAULT", "UNDECIDED"))]
     return n, pid, {"exit": r.returncode, "lines": lines[:4], "s": round(time.time() - t0, 1)}
 jobs = [(n, pid) for n in names for pid in ids]
-with ThreadPoolExecutor(4) as ex:
+with ThreadPoolExecutor(5) as ex:
     for n, pid, res in ex.map(one, jobs):
         mat.setdefault(n, {})[pid] = res
         if res["exit"] != 0: print(n, pid, "exit", res["exit"], res["lines"][:2], flush=True)
